@@ -286,7 +286,7 @@ func zzC17Unchanged(now, before []byte, except int) {
 
 // Group 4: opening arbitrary bytes reproduces the allocated set: Available == number of zero header bits, hint at 0
 func zzC17Reopen() {
-	bs := []int{1, 2}[vChoose("bsIdx", vParam("NBS4"))]
+	bs := []int{1, 2}[vParam("BS4FROM")+vChoose("bsIdx", vParam("NBS4"))]
 	segs := vConcrete(vRange("segments", 1, vParam("SEGS4")))
 	segSize := (8*bs + 1) * bs
 	fit := vBool("fit")
@@ -303,6 +303,11 @@ func zzC17Reopen() {
 		for p := 0; p < bs; p++ {
 			img[s*segSize+p] = []byte{0x00, 0xFF, 0x0F}[vChoose("hdr", 3)]
 		}
+	}
+	if vParam("HDR0") == 1 {
+		// multi-byte headers: the leading header byte of the last segment, too, is one of the concrete patterns (an
+		// entirely free byte in front of a used one is what a free-after-allocate history leaves behind)
+		img[(segs-1)*segSize] = []byte{0x00, 0xFF, 0x0F}[vChoose("hdr0", 3)]
 	}
 	copy(*ib, img)
 	bks, err := NewBlocks(bs, ib, fit)
